@@ -35,7 +35,8 @@ def correspondence(ctx):
         if i < 2:
             ins, outs = "100000", "1000000"
         every = rng.choice([0, 0, 1, 50, 3000, 100000])
-        lines.append("mk %d %d %d %s %s %s %d" % (rng.choice([1, 3, 3, 9]), mfs, ck, frames.hx(x), ins, outs, every)); meta.append((x, mfs, ck))
+        prior = rng.choice([0, 0, 1, 300, 5000]) if len(x) else 0        # abandoned earlier session on the same compression object
+        lines.append("mk %d %d %d %s %s %s %d %d" % (rng.choice([1, 3, 3, 9]), mfs, ck, frames.hx(x), ins, outs, every, prior)); meta.append((x, mfs, ck))
     outs_ = frames.parallel(lambda ch: [frames.run_lines(exe, ch, timeout=1800)], frames.split_chunks(lines, 16))
     arch = []
     for (rc, out, err), ch in zip(outs_, frames.split_chunks(lines, 16)):
